@@ -2,6 +2,7 @@ package hashring
 
 import (
 	"bufio"
+	"math/rand"
 	"encoding/json"
 	"fmt"
 	"io"
@@ -163,6 +164,9 @@ func c19Build(c vt.Case) (h receive.Hashring, res map[string]any) {
 	if err != nil {
 		panic(err)
 	}
+	if r := vt.Str(c["raw"]); r != "" { // validation cases bring their own file text
+		raw = []byte(r)
+	}
 	cfg, err := receive.ParseConfig(raw)
 	if err == nil {
 		h, err = receive.NewMultiHashring(algoOf(vt.Str(c["algo"])), uint64(vt.Int(c["rf"])), cfg, prometheus.NewRegistry())
@@ -211,7 +215,7 @@ func c19Probe(h receive.Hashring, c vt.Case) (res map[string]any) {
 func TestC19(t *testing.T) {
 	rnd := vt.Rand()
 	mk := func(zones []int, rf int, algo string, noZones, emptyFirst bool, ssSize int, ssNoZone bool) vt.Case {
-		return vt.Case{"zones": zones, "rf": rf, "algo": algo,
+		return vt.Case{"zones": zones, "rf": rf, "algo": algo, "vkind": "", "n": total0(zones), "raw": "",
 			"eps":    layoutEndpoints(rnd, zones, noZones, emptyFirst),
 			"ss":     map[string]any{"size": ssSize, "cache": 1, "nozone": ssNoZone},
 			"tenant": fmt.Sprintf("team-%d", rnd.Intn(1000)), "probe": 4, "sseed": rnd.Int63n(1 << 30)}
@@ -225,6 +229,10 @@ func TestC19(t *testing.T) {
 	}
 	gen := func(yield func(vt.Case)) {
 		for _, c := range vt.TLCCases(t) {
+			if k, ok := c["vkind"]; ok { // phase 2: validation paths
+				yield(c19ValidationCase(rnd, vt.Str(k), vt.Int(c["n"]), vt.Int(c["rf"])))
+				continue
+			}
 			zones, rf := vt.Ints(c["zones"]), vt.Int(c["rf"])
 			n := total(zones)
 			yield(mk(zones, rf, "ketama", false, false, 0, false)) // the layout as enumerated
@@ -326,4 +334,82 @@ func TestC19(t *testing.T) {
 		}
 		return vt.Event{"got": got}
 	})
+}
+
+func total0(z []int) int {
+	n := 0
+	for _, x := range z {
+		n += x
+	}
+	return n
+}
+
+// c19ValidationCase renders a wrong or unusual hashring file (phase 2). eps lists the endpoints
+// a usable ring may answer with.
+func c19ValidationCase(rnd *rand.Rand, kind string, n, rf int) vt.Case {
+	type jep struct {
+		Address string `json:"address"`
+		AZ      string `json:"az,omitempty"`
+	}
+	zn := zoneNames[rnd.Intn(len(zoneNames))]
+	style := rnd.Intn(4)
+	var eps []jep
+	for i := 0; i < n; i++ {
+		e := jep{Address: nodeName(rnd, style, i)}
+		switch kind {
+		case "partaz":
+			if i%2 == 0 {
+				e.AZ = zn[i%3]
+			}
+		case "hashmodaz":
+			e.AZ = zn[i%3]
+		case "dup":
+			if i > 0 && i == n-1 {
+				e.Address = eps[0].Address // the last endpoint repeats the first
+			}
+		}
+		eps = append(eps, e)
+	}
+	algo, jalgo := "ketama", ""
+	switch kind {
+	case "unknownalgo":
+		algo, jalgo = "ketama", "consistent-hashing-v2" // per-hashring algorithm nobody knows
+	case "hashmodaz":
+		algo = "hashmod"
+		if n == 0 {
+			eps = append(eps, jep{Address: nodeName(rnd, style, 0), AZ: zn[0]})
+		}
+	}
+	ring := map[string]any{"hashring": "h0", "endpoints": eps}
+	if eps == nil {
+		ring["endpoints"] = []jep{}
+	}
+	if jalgo != "" {
+		ring["algorithm"] = jalgo
+	}
+	b, _ := json.Marshal([]any{ring})
+	raw := string(b)
+	switch kind {
+	case "malformed":
+		raw = raw[:len(raw)*2/3]
+	case "noaddr":
+		raw = `[{"hashring": "h0", "endpoints": [{"az": "` + zn[0] + `"}, {"address": "` + nodeName(rnd, style, 1) + `"}]}]`
+	case "emptylist":
+		raw = "[]"
+	case "emptyeps":
+		raw = `[{"hashring": "h0", "endpoints": []}]`
+		eps = nil
+	}
+	known := []any{}
+	for _, e := range eps {
+		known = append(known, ep(e.Address, e.AZ))
+	}
+	if kind == "emptyeps" {
+		n = 0
+	}
+	if kind == "hashmodaz" && n == 0 {
+		n = 1
+	}
+	return vt.Case{"zones": []int{n}, "rf": rf, "algo": algo, "vkind": kind, "n": n, "raw": raw, "eps": known,
+		"ss": map[string]any{"size": 0, "cache": 1, "nozone": false}, "tenant": "team-v", "probe": 4, "sseed": rnd.Int63n(1 << 30)}
 }
